@@ -1,6 +1,6 @@
 (** Proofs about Model/Overlap.v: the per-axis overlap arithmetic (C03 core). *)
 From Coq Require Import ZArith QArith Qround Qabs List Bool Lia Lqa.
-From OG Require Import Base.Result Base.QZ Model.Roi Model.Overlap.
+From OG Require Import Base.Result Base.QZ Model.Roi Model.Overlap Proofs.RoiProofs Proofs.RoiPointsProofs.
 Import ListNotations.
 Open Scope Q_scope.
 
@@ -574,4 +574,469 @@ Proof.
       rewrite Y, S1. ring. }
     assert (Hp : 0 < s1 * s2) by (timeout 20 nra).
     apply Qabs_case; intros Hc; timeout 20 nra.
+Qed.
+
+(** ** roi_from_points on one axis: envelope form *)
+Lemma axis_from_points_env v0 vs n padding align lim (k : Z) :
+  (0 <= n)%Z -> (0 <= padding)%Z -> align_ok align -> (n < lim)%Z ->
+  (Qfloor (Qmin_list v0 vs) - padding <= k)%Z ->
+  (k < Qceiling (Qmax_list v0 vs) + padding)%Z ->
+  (0 <= k < n)%Z ->
+  let r := axis_from_points (v0 :: vs) n padding align lim in
+  (fst r <= k < snd r)%Z.
+Proof.
+  intros Hn Hp Ha Hlim H1 H2 Hk. unfold axis_from_points, Qclip_floor, Qclip_ceil.
+  set (fl := Qfloor (Qmin_list v0 vs)) in *. set (ce := Qceiling (Qmax_list v0 vs)) in *.
+  clearbody fl ce.
+  destruct align as [a|]; cbn [fst snd].
+  - simpl in Ha.
+    destruct (align_down_spec (clipZ fl (- lim) lim - padding) a Ha) as (D1 & D2 & D3).
+    destruct (align_up_spec (clipZ ce (- lim) lim + padding) a Ha) as (U1 & U2 & U3).
+    set (lo := align_down (clipZ fl (- lim) lim - padding) a) in *.
+    set (hi := align_up (clipZ ce (- lim) lim + padding) a) in *.
+    clearbody lo hi. unfold clipZ in *. lia.
+  - unfold clipZ. lia.
+Qed.
+
+Lemma axis_from_points_range vals n padding align lim :
+  (0 <= n)%Z ->
+  let r := axis_from_points vals n padding align lim in
+  (0 <= fst r <= n)%Z /\ (0 <= snd r <= n)%Z.
+Proof.
+  intros Hn. unfold axis_from_points. destruct vals as [|v0 vs]; [cbn; lia|].
+  destruct align; cbn [fst snd]; unfold clipZ; lia.
+Qed.
+
+(** separated by the margin -> empty *)
+Lemma axis_from_points_empty_lo v0 vs n padding align lim :
+  (0 <= n)%Z -> align_ok align -> (0 <= padding <= lim)%Z ->
+  (Qceiling (Qmax_list v0 vs) + padding <= 0)%Z ->
+  let r := axis_from_points (v0 :: vs) n padding align lim in
+  (snd r - fst r <= 0)%Z.
+Proof.
+  intros Hn Ha Hlim H. unfold axis_from_points, Qclip_floor, Qclip_ceil.
+  set (fl := Qfloor (Qmin_list v0 vs)) in *. set (ce := Qceiling (Qmax_list v0 vs)) in *.
+  clearbody fl ce.
+  destruct align as [a|]; cbn [fst snd].
+  - simpl in Ha.
+    destruct (align_up_spec (clipZ ce (- lim) lim + padding) a Ha) as (U1 & U2 & U3).
+    set (hi := align_up (clipZ ce (- lim) lim + padding) a) in *. clearbody hi.
+    assert (hi <= 0)%Z.
+    { unfold clipZ in *. destruct (Z_le_gt_dec hi 0); [assumption|].
+      rewrite Z.mod_small in U1 by lia. lia. }
+    unfold clipZ. lia.
+  - unfold clipZ. lia.
+Qed.
+
+Lemma axis_from_points_empty_hi v0 vs n padding align lim :
+  (0 <= n)%Z -> align_ok align -> (0 <= padding)%Z ->
+  (n + match align with None => 0 | Some a => a - 1 end <= lim - padding)%Z ->
+  (n + match align with None => 0 | Some a => a - 1 end <= Qfloor (Qmin_list v0 vs) - padding)%Z ->
+  let r := axis_from_points (v0 :: vs) n padding align lim in
+  (snd r - fst r <= 0)%Z.
+Proof.
+  intros Hn Ha Hp Hlim H. unfold axis_from_points, Qclip_floor, Qclip_ceil.
+  set (fl := Qfloor (Qmin_list v0 vs)) in *. set (ce := Qceiling (Qmax_list v0 vs)) in *.
+  clearbody fl ce.
+  destruct align as [a|]; cbn [fst snd].
+  - simpl in Ha.
+    destruct (align_down_spec (clipZ fl (- lim) lim - padding) a Ha) as (D1 & D2 & D3).
+    set (lo := align_down (clipZ fl (- lim) lim - padding) a) in *.
+    clearbody lo. unfold clipZ in *. lia.
+  - unfold clipZ. lia.
+Qed.
+
+(** ** an affine functional on a rectangle is bounded by its corner values *)
+Lemma Qmax_list_in v0 vs v : In v (v0 :: vs) -> v <= Qmax_list v0 vs.
+Proof. intros [-> | H]; [apply Qmax_list_ge_d | apply Qmax_list_ge; exact H]. Qed.
+Lemma Qmin_list_in v0 vs v : In v (v0 :: vs) -> Qmin_list v0 vs <= v.
+Proof. intros [-> | H]; [apply Qmin_list_le_d | apply Qmin_list_le; exact H]. Qed.
+
+Section Rect.
+  Variables (a b c X0 X1 Y0 Y1 px py : Q).
+  Let g (x y : Q) : Q := a * x + b * y + c.
+  Hypothesis HX : X0 <= px /\ px <= X1.
+  Hypothesis HY : Y0 <= py /\ py <= Y1.
+
+  Lemma rect_corner_max : exists cx cy, (cx = X0 \/ cx = X1) /\ (cy = Y0 \/ cy = Y1) /\ g px py <= g cx cy.
+  Proof.
+    destruct HX as [x0 x1]; destruct HY as [y0 y1]. unfold g.
+    destruct (Qlt_le_dec a 0); destruct (Qlt_le_dec b 0).
+    - exists X0, Y0. repeat split; auto. timeout 20 nra.
+    - exists X0, Y1. repeat split; auto. timeout 20 nra.
+    - exists X1, Y0. repeat split; auto. timeout 20 nra.
+    - exists X1, Y1. repeat split; auto. timeout 20 nra.
+  Qed.
+
+  Lemma rect_corner_min : exists cx cy, (cx = X0 \/ cx = X1) /\ (cy = Y0 \/ cy = Y1) /\ g cx cy <= g px py.
+  Proof.
+    destruct HX as [x0 x1]; destruct HY as [y0 y1]. unfold g.
+    destruct (Qlt_le_dec a 0); destruct (Qlt_le_dec b 0).
+    - exists X1, Y1. repeat split; auto. timeout 20 nra.
+    - exists X1, Y0. repeat split; auto. timeout 20 nra.
+    - exists X0, Y1. repeat split; auto. timeout 20 nra.
+    - exists X0, Y0. repeat split; auto. timeout 20 nra.
+  Qed.
+
+  Lemma rect_corner_max_strict :
+    X0 < px -> px < X1 -> Y0 < py -> py < Y1 -> ~ (a == 0 /\ b == 0) ->
+    exists cx cy, (cx = X0 \/ cx = X1) /\ (cy = Y0 \/ cy = Y1) /\ g px py < g cx cy.
+  Proof.
+    intros x0 x1 y0 y1 Hab. unfold g.
+    destruct (Qlt_le_dec a 0); destruct (Qlt_le_dec b 0).
+    - exists X0, Y0. repeat split; auto. timeout 20 nra.
+    - exists X0, Y1. repeat split; auto. timeout 20 nra.
+    - exists X1, Y0. repeat split; auto. timeout 20 nra.
+    - destruct (Qlt_le_dec 0 a).
+      + exists X1, Y1. repeat split; auto. timeout 20 nra.
+      + assert (a == 0) by lra. destruct (Qlt_le_dec 0 b).
+        * exists X1, Y1. repeat split; auto. timeout 20 nra.
+        * exfalso. apply Hab. split; lra.
+  Qed.
+
+  Definition corner_vals : list Q := [g X0 Y0; g X1 Y0; g X1 Y1; g X0 Y1].
+
+  Lemma rect_in_corners cx cy : (cx = X0 \/ cx = X1) -> (cy = Y0 \/ cy = Y1) -> In (g cx cy) corner_vals.
+  Proof. unfold corner_vals. intros [-> | ->] [-> | ->]; simpl; auto. Qed.
+
+  Lemma rect_le_max : g px py <= Qmax_list (g X0 Y0) [g X1 Y0; g X1 Y1; g X0 Y1].
+  Proof.
+    destruct rect_corner_max as (cx & cy & Hx & Hy & H).
+    eapply Qle_trans; [exact H|]. apply Qmax_list_in. apply (rect_in_corners cx cy Hx Hy).
+  Qed.
+
+  Lemma rect_ge_min : Qmin_list (g X0 Y0) [g X1 Y0; g X1 Y1; g X0 Y1] <= g px py.
+  Proof.
+    destruct rect_corner_min as (cx & cy & Hx & Hy & H).
+    eapply Qle_trans; [|exact H]. apply Qmin_list_in. apply (rect_in_corners cx cy Hx Hy).
+  Qed.
+
+  Lemma rect_lt_max :
+    X0 < px -> px < X1 -> Y0 < py -> py < Y1 -> ~ (a == 0 /\ b == 0) ->
+    g px py < Qmax_list (g X0 Y0) [g X1 Y0; g X1 Y1; g X0 Y1].
+  Proof.
+    intros x0 x1 y0 y1 Hab.
+    destruct (rect_corner_max_strict x0 x1 y0 y1 Hab) as (cx & cy & Hx & Hy & H).
+    eapply Qlt_le_trans; [exact H|]. apply Qmax_list_in. apply (rect_in_corners cx cy Hx Hy).
+  Qed.
+End Rect.
+
+Lemma boundary_pts_2 y0 y1 x0 x1 :
+  boundary_pts ((y0, y1), (x0, x1)) 2 =
+  [(inject_Z x0, inject_Z y0); (inject_Z x1, inject_Z y0); (inject_Z x1, inject_Z y1); (inject_Z x0, inject_Z y1)].
+Proof. reflexivity. Qed.
+
+(** ** roi_from_points: envelope form in two dimensions *)
+Definition in_roi (r : roi2) (ky kx : Z) : Prop := in_sl (fst r) ky /\ in_sl (snd r) kx.
+Definition roi_within (r : roi2) (shape : shape2) : Prop :=
+  sl_within (fst r) (fst shape) /\ sl_within (snd r) (snd shape).
+
+(** the integer [k] lies in the envelope [floor(min) - pad, ceil(max) + pad) of the values *)
+Definition env_has (vals : list Q) (pad k : Z) : Prop :=
+  match vals with
+  | [] => False
+  | v :: vs => (Qfloor (Qmin_list v vs) - pad <= k)%Z /\ (k < Qceiling (Qmax_list v vs) + pad)%Z
+  end.
+
+Definition xs_of (pts : list (option (Q * Q))) : list Q := map fst (keep_finite pts).
+Definition ys_of (pts : list (option (Q * Q))) : list Q := map snd (keep_finite pts).
+
+Lemma lim_gt n1 n2 padding align :
+  (0 <= padding)%Z -> align_ok align ->
+  let lim := (Z.max n1 n2 + padding + match align with None => 1 | Some a => a end + 1)%Z in
+  (n1 < lim)%Z /\ (n2 < lim)%Z.
+Proof. intros Hp Ha. destruct align; simpl in *; lia. Qed.
+
+Lemma roi_from_points_env pts ny nx padding align ky kx :
+  (0 <= ny)%Z -> (0 <= nx)%Z -> (0 <= padding)%Z -> align_ok align ->
+  env_has (xs_of pts) padding kx -> env_has (ys_of pts) padding ky ->
+  (0 <= kx < nx)%Z -> (0 <= ky < ny)%Z ->
+  in_roi (roi_from_points pts ny nx padding align) ky kx.
+Proof.
+  intros Hny Hnx Hp Ha Ex Ey Hkx Hky.
+  unfold roi_from_points, in_roi, in_sl. cbn [fst snd].
+  destruct (lim_gt nx ny padding align Hp Ha) as [L1 L2].
+  unfold xs_of, ys_of in *.
+  set (lim := (Z.max nx ny + padding + match align with None => 1 | Some a => a end + 1)%Z) in *.
+  clearbody lim.
+  destruct (map fst (keep_finite pts)) as [|vx vxs]; [destruct Ex|].
+  destruct (map snd (keep_finite pts)) as [|vy vys]; [destruct Ey|].
+  destruct Ex as [Ex1 Ex2]. destruct Ey as [Ey1 Ey2].
+  split.
+  - apply (axis_from_points_env vy vys ny padding align lim ky); assumption.
+  - apply (axis_from_points_env vx vxs nx padding align lim kx); assumption.
+Qed.
+
+Lemma roi_from_points_within2 pts ny nx padding align :
+  (0 <= ny)%Z -> (0 <= nx)%Z ->
+  let r := roi_from_points pts ny nx padding align in
+  (0 <= fst (fst r) <= ny /\ 0 <= snd (fst r) <= ny /\ 0 <= fst (snd r) <= nx /\ 0 <= snd (snd r) <= nx)%Z.
+Proof.
+  intros Hny Hnx. unfold roi_from_points. cbn [fst snd].
+  pose proof (axis_from_points_range (map snd (keep_finite pts)) ny padding align
+               (Z.max nx ny + padding + match align with None => 1 | Some a => a end + 1) Hny) as [A1 A2].
+  pose proof (axis_from_points_range (map fst (keep_finite pts)) nx padding align
+               (Z.max nx ny + padding + match align with None => 1 | Some a => a end + 1) Hnx) as [B1 B2].
+  cbv zeta in *. lia.
+Qed.
+
+(** ** _relative_rois: inclusion from the two envelope conditions *)
+Lemma relative_rois_incl back fwd ss ds n padding align ky kx dy dx :
+  (0 <= fst ss)%Z -> (0 <= snd ss)%Z -> (0 <= fst ds)%Z -> (0 <= snd ds)%Z ->
+  (0 <= padding)%Z -> align_ok align ->
+  let pts1 := map back (boundary_pts ((0%Z, fst ds), (0%Z, snd ds)) n) in
+  let roi_s := roi_from_points pts1 (fst ss) (snd ss) padding align in
+  let pts2 := map fwd (boundary_pts roi_s n) in
+  env_has (xs_of pts1) padding kx -> env_has (ys_of pts1) padding ky ->
+  (0 <= kx < snd ss)%Z -> (0 <= ky < fst ss)%Z ->
+  env_has (xs_of pts2) 0 dx -> env_has (ys_of pts2) 0 dy ->
+  (0 <= dx < snd ds)%Z -> (0 <= dy < fst ds)%Z ->
+  let r := relative_rois back fwd ss ds n padding align in
+  in_roi (fst r) ky kx /\ in_roi (snd r) dy dx.
+Proof.
+  intros H1 H2 H3 H4 Hp Ha pts1 roi_s pts2 E1 E2 K1 K2 E3 E4 D1 D2.
+  pose proof (roi_from_points_env pts1 (fst ss) (snd ss) padding align ky kx H1 H2 Hp Ha E1 E2 K1 K2) as Is.
+  fold roi_s in Is.
+  unfold relative_rois. fold pts1. fold roi_s.
+  assert (Ne : roi_empty roi_s = false).
+  { destruct Is as [[a1 a2] [b1 b2]]. unfold roi_empty.
+    destruct roi_s as [[y0 y1] [x0 x1]]. cbn [fst snd] in *.
+    apply orb_false_iff; split; apply Z.leb_gt; lia. }
+  rewrite Ne. cbn [fst snd]. split; [exact Is|].
+  fold pts2.
+  apply roi_from_points_env; try assumption; try lia. exact I.
+Qed.
+
+Lemma relative_rois_within back fwd ss ds n padding align :
+  (0 <= fst ss)%Z -> (0 <= snd ss)%Z -> (0 <= fst ds)%Z -> (0 <= snd ds)%Z ->
+  let r := relative_rois back fwd ss ds n padding align in
+  (0 <= fst (fst (fst r)) <= fst ss /\ 0 <= snd (fst (fst r)) <= fst ss /\
+   0 <= fst (snd (fst r)) <= snd ss /\ 0 <= snd (snd (fst r)) <= snd ss)%Z /\
+  (0 <= fst (fst (snd r)) <= fst ds /\ 0 <= snd (fst (snd r)) <= fst ds /\
+   0 <= fst (snd (snd r)) <= snd ds /\ 0 <= snd (snd (snd r)) <= snd ds)%Z.
+Proof.
+  intros H1 H2 H3 H4. unfold relative_rois.
+  set (pts1 := map back _). set (roi_s := roi_from_points pts1 _ _ _ _).
+  pose proof (roi_from_points_within2 pts1 (fst ss) (snd ss) padding align H1 H2) as W1. fold roi_s in W1.
+  destruct (roi_empty roi_s); cbn [fst snd].
+  - split; [exact W1 | lia].
+  - split; [exact W1|]. apply roi_from_points_within2; assumption.
+Qed.
+
+(** ** compute_reproject_roi, same CRS *)
+Definition pad_default (padding : option Z) : Z := match padding with None => 1%Z | Some p => p end.
+Definition src_dims (ss : shape2) (k : Z) : shape2 :=
+  if (k =? 1)%Z then ss else (zoom_out_dim (fst ss) k, zoom_out_dim (snd ss) k).
+Definition up_roi (r : roi2) (k : Z) : roi2 :=
+  if (k =? 1)%Z then r else (scaled_up_slice (fst r) k None, scaled_up_slice (snd r) k None).
+
+Lemma reproject_linear_cases c ss ds A F ttol stol padding align r :
+  reproject_linear c ss ds A F ttol stol padding align = Ok r ->
+  exists sx sy,
+    scale2 A = Ok (sx, sy) /\ scale r = Qminq sx sy /\ scale_xy r = (sx, sy) /\
+    pick_read_scale (scale r) (c_rs c) = Ok (read_shrink r) /\
+    ((paste_ok r = false /\
+      (roi_src r, roi_dst r) =
+        relative_rois (aff_pt A) (aff_pt F) ss ds 2 (pad_default padding) (norm_align align)) \/
+     (paste_ok r = true /\ opt_in0 (norm_align align) = true /\ opt_in0 padding = true /\
+      can_paste_code c A stol ttol = Ok 0%Z /\
+      exists rs rd,
+        box_overlap (src_dims ss (read_shrink r)) ds (paste_affine c A ttol stol (read_shrink r)) = Ok (rs, rd) /\
+        roi_src r = up_roi rs (read_shrink r) /\ roi_dst r = rd)).
+Proof.
+  unfold reproject_linear. intros H.
+  destruct (scale2 A) as [[sx sy]|e] eqn:Es; [|discriminate]. cbn [bind] in H.
+  destruct (pick_read_scale (Qminq sx sy) (c_rs c)) as [k|e] eqn:Ek; [|discriminate]. cbn [bind] in H.
+  exists sx, sy. split; [reflexivity|].
+  destruct (opt_in0 (norm_align align) && opt_in0 padding) eqn:Et.
+  - unfold can_paste in H.
+    destruct (can_paste_code c A stol ttol) as [code|e] eqn:Ec; [|discriminate]. cbn [bind] in H.
+    destruct (code =? 0)%Z eqn:E0.
+    + apply Z.eqb_eq in E0. subst code. apply andb_true_iff in Et. destruct Et as [T1 T2].
+      destruct (k =? 1)%Z eqn:K1.
+      * destruct (box_overlap ss ds (paste_affine c A ttol stol k)) as [[rs rd]|e] eqn:Eb; [|discriminate].
+        cbn [bind] in H. injection H as <-. cbn.
+        repeat split; try assumption. right. repeat split; try assumption.
+        exists rs, rd. unfold src_dims, up_roi. rewrite K1. auto.
+      * destruct (box_overlap _ ds (paste_affine c A ttol stol k)) as [[rs rd]|e] eqn:Eb; [|discriminate].
+        cbn [bind] in H. injection H as <-. cbn.
+        repeat split; try assumption. right. repeat split; try assumption.
+        exists rs, rd. unfold src_dims, up_roi. rewrite K1. auto.
+    + destruct (relative_rois _ _ _ _ _ _ _) as [rs rd] eqn:Er in H. injection H as <-. cbn.
+      repeat split; try assumption. left. split; [reflexivity|]. unfold pad_default. rewrite Er. reflexivity.
+  - cbn [bind] in H.
+    destruct (relative_rois _ _ _ _ _ _ _) as [rs rd] eqn:Er in H. injection H as <-. cbn.
+    repeat split; try assumption. left. split; [reflexivity|]. unfold pad_default. rewrite Er. reflexivity.
+Qed.
+
+Definition pix_center (dy dx : Z) : Q * Q := (inject_Z dx + (1#2), inject_Z dy + (1#2)).
+
+Lemma Qfloor_half (d : Z) v : v == inject_Z d + (1#2) -> Qfloor v = d.
+Proof.
+  intros E. rewrite E.
+  assert (d <= Qfloor (inject_Z d + (1#2)))%Z by (apply Qfloor_ge_iff; lra).
+  assert (Qfloor (inject_Z d + (1#2)) < d + 1)%Z.
+  { apply Qfloor_lt_iff. rewrite inject_Z_plus. change (inject_Z 1) with 1. lra. }
+  lia.
+Qed.
+
+Lemma xs_of_aff4 A p1 p2 p3 p4 :
+  xs_of (map (aff_pt A) [p1; p2; p3; p4]) =
+  [fst (aff_apply A p1); fst (aff_apply A p2); fst (aff_apply A p3); fst (aff_apply A p4)].
+Proof. reflexivity. Qed.
+Lemma ys_of_aff4 A p1 p2 p3 p4 :
+  ys_of (map (aff_pt A) [p1; p2; p3; p4]) =
+  [snd (aff_apply A p1); snd (aff_apply A p2); snd (aff_apply A p3); snd (aff_apply A p4)].
+Proof. reflexivity. Qed.
+
+(** stage 1: the source location of an interior point of the destination rectangle lies in the
+    envelope of the images of the four corners *)
+Lemma linear_env_src A (ny nx padding : Z) (qx qy : Q) :
+  (0 <= padding)%Z ->
+  0 < qx -> qx < inject_Z nx -> 0 < qy -> qy < inject_Z ny ->
+  ~ (aa A == 0 /\ ab A == 0) -> ~ (ad A == 0 /\ ae A == 0) ->
+  let p := aff_apply A (qx, qy) in
+  let pts := map (aff_pt A) (boundary_pts ((0%Z, ny), (0%Z, nx)) 2) in
+  env_has (xs_of pts) padding (Qfloor (fst p)) /\ env_has (ys_of pts) padding (Qfloor (snd p)).
+Proof.
+  intros Hp X0 X1 Y0 Y1 R1 R2 p pts. unfold pts. rewrite boundary_pts_2, xs_of_aff4, ys_of_aff4.
+  unfold aff_apply, env_has. cbn [fst snd]. change (inject_Z 0) with 0.
+  assert (HX : 0 <= qx /\ qx <= inject_Z nx) by lra.
+  assert (HY : 0 <= qy /\ qy <= inject_Z ny) by lra.
+  split; split.
+  - pose proof (rect_ge_min (aa A) (ab A) (ac A) 0 (inject_Z nx) 0 (inject_Z ny) qx qy HX HY) as H. cbv beta in H.
+    apply Qfloor_mono in H. unfold p, aff_apply; cbn [fst snd]. lia.
+  - pose proof (rect_lt_max (aa A) (ab A) (ac A) 0 (inject_Z nx) 0 (inject_Z ny) qx qy X0 X1 Y0 Y1 R1) as H. cbv beta in H.
+    match goal with |- (_ < Qceiling ?m + _)%Z =>
+      assert (Qfloor (fst p) < Qceiling m)%Z
+        by (apply Qceiling_gt_iff; eapply Qle_lt_trans; [apply Qfloor_le | exact H]) end.
+    lia.
+  - pose proof (rect_ge_min (ad A) (ae A) (af A) 0 (inject_Z nx) 0 (inject_Z ny) qx qy HX HY) as H. cbv beta in H.
+    apply Qfloor_mono in H. unfold p, aff_apply; cbn [fst snd]. lia.
+  - pose proof (rect_lt_max (ad A) (ae A) (af A) 0 (inject_Z nx) 0 (inject_Z ny) qx qy X0 X1 Y0 Y1 R2) as H. cbv beta in H.
+    match goal with |- (_ < Qceiling ?m + _)%Z =>
+      assert (Qfloor (snd p) < Qceiling m)%Z
+        by (apply Qceiling_gt_iff; eapply Qle_lt_trans; [apply Qfloor_le | exact H]) end.
+    lia.
+Qed.
+
+(** stage 2: a pixel centre that is the image of a point of the source region lies in the envelope
+    of the images of the region's corners *)
+Lemma linear_env_dst F (roi : roi2) (px py : Q) (dy dx : Z) :
+  inject_Z (fst (snd roi)) <= px -> px <= inject_Z (snd (snd roi)) ->
+  inject_Z (fst (fst roi)) <= py -> py <= inject_Z (snd (fst roi)) ->
+  fst (aff_apply F (px, py)) == inject_Z dx + (1#2) ->
+  snd (aff_apply F (px, py)) == inject_Z dy + (1#2) ->
+  let pts := map (aff_pt F) (boundary_pts roi 2) in
+  env_has (xs_of pts) 0 dx /\ env_has (ys_of pts) 0 dy.
+Proof.
+  destruct roi as [[y0 y1] [x0 x1]]. cbn [fst snd].
+  intros X0 X1 Y0 Y1 Ex Ey. rewrite boundary_pts_2, xs_of_aff4, ys_of_aff4.
+  unfold aff_apply, env_has in *. cbn [fst snd] in *.
+  assert (HX : inject_Z x0 <= px /\ px <= inject_Z x1) by lra.
+  assert (HY : inject_Z y0 <= py /\ py <= inject_Z y1) by lra.
+  split; split.
+  - pose proof (rect_ge_min (aa F) (ab F) (ac F) _ _ _ _ px py HX HY) as H. cbv beta in H.
+    apply Qfloor_mono in H. rewrite (Qfloor_half dx _ Ex) in H. lia.
+  - pose proof (rect_le_max (aa F) (ab F) (ac F) _ _ _ _ px py HX HY) as H. cbv beta in H.
+    rewrite Ex in H.
+    match goal with |- (dx < Qceiling ?m + 0)%Z => assert (dx < Qceiling m)%Z by (apply Qceiling_gt_iff; lra) end.
+    lia.
+  - pose proof (rect_ge_min (ad F) (ae F) (af F) _ _ _ _ px py HX HY) as H. cbv beta in H.
+    apply Qfloor_mono in H. rewrite (Qfloor_half dy _ Ey) in H. lia.
+  - pose proof (rect_le_max (ad F) (ae F) (af F) _ _ _ _ px py HX HY) as H. cbv beta in H.
+    rewrite Ey in H.
+    match goal with |- (dy < Qceiling ?m + 0)%Z => assert (dy < Qceiling m)%Z by (apply Qceiling_gt_iff; lra) end.
+    lia.
+Qed.
+
+Definition pt_eq (p q : Q * Q) : Prop := fst p == fst q /\ snd p == snd q.
+Definition inverse_of (F A : affine) : Prop := forall p, pt_eq (aff_apply F (aff_apply A p)) p.
+
+Lemma inverse_rows F A : inverse_of F A ->
+  ~ (aa A == 0 /\ ab A == 0) /\ ~ (ad A == 0 /\ ae A == 0).
+Proof.
+  intros H.
+  pose proof (H (0, 0)) as [H00x H00y]. pose proof (H (1, 0)) as [H10x H10y]. pose proof (H (0, 1)) as [H01x H01y].
+  unfold aff_apply in *. cbn [fst snd] in *.
+  set (a := aa A) in *. set (b := ab A) in *. set (c := ac A) in *.
+  set (d := ad A) in *. set (e := ae A) in *. set (f := af A) in *.
+  set (fa := aa F) in *. set (fb := ab F) in *. set (fc := ac F) in *.
+  set (fd := ad F) in *. set (fe := ae F) in *. set (ff := af F) in *.
+  clearbody a b c d e f fa fb fc fd fe ff.
+  assert (L1 : fa * a + fb * d == 1) by lra.
+  assert (L2 : fa * b + fb * e == 0) by lra.
+  assert (L3 : fd * a + fe * d == 0) by lra.
+  assert (L4 : fd * b + fe * e == 1) by lra.
+  split; intros [Z1 Z2].
+  - rewrite Z1 in L1, L3. rewrite Z2 in L2, L4.
+    assert (fb * d == 1) by lra. assert (fb * e == 0) by lra.
+    assert (fe * d == 0) by lra. assert (fe * e == 1) by lra.
+    assert (X : (fb * d) * (fe * e) == (fb * e) * (fe * d)) by ring.
+    rewrite H0, H1, H2, H3 in X. lra.
+  - rewrite Z1 in L1, L3. rewrite Z2 in L2, L4.
+    assert (fa * a == 1) by lra. assert (fa * b == 0) by lra.
+    assert (fd * a == 0) by lra. assert (fd * b == 1) by lra.
+    assert (X : (fa * a) * (fd * b) == (fa * b) * (fd * a)) by ring.
+    rewrite H0, H1, H2, H3 in X. lra.
+Qed.
+
+Lemma floor_in_range (x : Q) (lo hi : Z) :
+  (lo <= Qfloor x < hi)%Z -> inject_Z lo <= x /\ x <= inject_Z hi.
+Proof.
+  intros [H1 H2]. apply Qfloor_ge_iff in H1. apply Qfloor_lt_iff in H2. lra.
+Qed.
+
+(** same CRS, sampled path: every needed pixel is covered (any invertible affine) *)
+Lemma sampled_inclusion c ss ds A F ttol stol padding align r :
+  reproject_linear c ss ds A F ttol stol padding align = Ok r ->
+  paste_ok r = false ->
+  (0 <= fst ss)%Z -> (0 <= snd ss)%Z -> (0 <= fst ds)%Z -> (0 <= snd ds)%Z ->
+  (0 <= pad_default padding)%Z -> align_ok (norm_align align) ->
+  inverse_of F A ->
+  forall dy dx, (0 <= dy < fst ds)%Z -> (0 <= dx < snd ds)%Z ->
+    let p := aff_apply A (pix_center dy dx) in
+    0 <= fst p -> fst p < inject_Z (snd ss) -> 0 <= snd p -> snd p < inject_Z (fst ss) ->
+    in_roi (roi_dst r) dy dx /\ in_roi (roi_src r) (Qfloor (snd p)) (Qfloor (fst p)).
+Proof.
+  intros Hr Hpaste S1 S2 D1 D2 Hpad Hal Hinv dy dx Hdy Hdx p Px0 Px1 Py0 Py1.
+  destruct (reproject_linear_cases _ _ _ _ _ _ _ _ _ _ Hr) as (sx & sy & _ & _ & _ & _ & [[_ Hroi] | [Hp _]]);
+    [|congruence].
+  destruct (inverse_rows F A Hinv) as [R1 R2].
+  assert (Kx : (0 <= Qfloor (fst p) < snd ss)%Z).
+  { split; [apply Qfloor_ge_iff; exact Px0 | apply Qfloor_lt_iff; exact Px1]. }
+  assert (Ky : (0 <= Qfloor (snd p) < fst ss)%Z).
+  { split; [apply Qfloor_ge_iff; exact Py0 | apply Qfloor_lt_iff; exact Py1]. }
+  assert (Cx0 : 0 < inject_Z dx + (1#2)).
+  { assert (0 <= inject_Z dx) by (change 0 with (inject_Z 0); rewrite <- Zle_Qle; lia). lra. }
+  assert (Cy0 : 0 < inject_Z dy + (1#2)).
+  { assert (0 <= inject_Z dy) by (change 0 with (inject_Z 0); rewrite <- Zle_Qle; lia). lra. }
+  assert (Cx1 : inject_Z dx + (1#2) < inject_Z (snd ds)).
+  { assert (inject_Z dx + 1 <= inject_Z (snd ds)).
+    { assert (E : inject_Z dx + 1 == inject_Z (dx + 1)) by (rewrite inject_Z_plus; reflexivity).
+      rewrite E, <- Zle_Qle. lia. }
+    lra. }
+  assert (Cy1 : inject_Z dy + (1#2) < inject_Z (fst ds)).
+  { assert (inject_Z dy + 1 <= inject_Z (fst ds)).
+    { assert (E : inject_Z dy + 1 == inject_Z (dy + 1)) by (rewrite inject_Z_plus; reflexivity).
+      rewrite E, <- Zle_Qle. lia. }
+    lra. }
+  destruct (linear_env_src A (fst ds) (snd ds) (pad_default padding) _ _ Hpad Cx0 Cx1 Cy0 Cy1 R1 R2) as [E1 E2].
+  fold (pix_center dy dx) in E1, E2. fold p in E1, E2.
+  pose proof (relative_rois_incl (aff_pt A) (aff_pt F) ss ds 2 (pad_default padding) (norm_align align)
+                (Qfloor (snd p)) (Qfloor (fst p)) dy dx S1 S2 D1 D2 Hpad Hal) as HI.
+  cbv zeta in HI. specialize (HI E1 E2 Kx Ky).
+  (* stage 2 *)
+  set (pts1 := map (aff_pt A) (boundary_pts (0%Z, fst ds, (0%Z, snd ds)) 2)) in *.
+  set (roi_s := roi_from_points pts1 (fst ss) (snd ss) (pad_default padding) (norm_align align)) in *.
+  pose proof (roi_from_points_env pts1 (fst ss) (snd ss) (pad_default padding) (norm_align align)
+                (Qfloor (snd p)) (Qfloor (fst p)) S1 S2 Hpad Hal E1 E2 Kx Ky) as Is.
+  fold roi_s in Is. destruct Is as [Isy Isx]. unfold in_sl in Isy, Isx.
+  destruct (floor_in_range _ _ _ Isx) as [Bx0 Bx1]. destruct (floor_in_range _ _ _ Isy) as [By0 By1].
+  destruct (Hinv (pix_center dy dx)) as [Ix Iy]. fold p in Ix, Iy.
+  assert (Ep : p = (fst p, snd p)) by (destruct p; reflexivity).
+  rewrite Ep in Ix, Iy. unfold pix_center in Ix, Iy. cbn [fst snd] in Ix, Iy.
+  destruct (linear_env_dst F roi_s (fst p) (snd p) dy dx Bx0 Bx1 By0 By1 Ix Iy) as [E3 E4].
+  specialize (HI E3 E4 Hdx Hdy).
+  rewrite <- Hroi in HI. cbn [fst snd] in HI. tauto.
 Qed.
